@@ -163,8 +163,9 @@ func (r *Reader) loadChapters(zr *zip.Reader) error {
 
 // resolveHref resolves a relative href against the OPF base directory.
 func (r *Reader) resolveHref(href string) string {
-	// URL-decode the href
-	if decoded, err := url.QueryUnescape(href); err == nil {
+	// Percent-decode the href. It is a URL path, not a query string: a
+	// literal '+' stands for itself and must not become a blank.
+	if decoded, err := url.PathUnescape(href); err == nil {
 		href = decoded
 	}
 
